@@ -339,6 +339,7 @@ fn float_is_exact_up_to_2_53() {
 #[kani::unwind(2)]
 #[kani::stub(std::hash::RandomState::new, fixed_state)]
 #[kani::stub(crate::args::Kwargs::get, kwargs_get_model)]
+#[kani::stub(std::fmt::format, no_format)]
 fn round_default_is_nearest_integer() {
     env!(ctx, st, kw);
     let f: f64 = kani::any();
@@ -397,6 +398,7 @@ fn powi_any_scale(_x: f64, _n: i32) -> f64 {
 #[kani::stub(std::hash::RandomState::new, fixed_state)]
 #[kani::stub(crate::args::Kwargs::get, kwargs_get_model)]
 #[kani::stub(f64::powi, powi_any_scale)]
+#[kani::stub(std::fmt::format, no_format)]
 fn round_precision_finite_or_error() {
     env!(ctx, st, kw);
     let p: i32 = kani::any();
